@@ -11,7 +11,8 @@ SITE = "http://x.test"
 DOC_URIS = [SITE + "/d/a.json", SITE + "/d/b.json", SITE + "/d/sub/c.json", SITE + "/e.json", "https://o.test/z/w.json",
             "urn:example:u1"]
 BASES = ["", SITE + "/d/root.json", SITE + "/d/root.json", "https://h.test/p/q/root.json", "urn:example:root", SITE + "/d/sub/deep/r.json"]
-REL_IDS = ["x2.json", "../k/x3.json", "./s/t.json", "/abs/x4.json", SITE + "/canon/x5.json", "urn:example:emb", "sub/"]
+REL_IDS = ["x2.json", "../k/x3.json", "./s/t.json", "/abs/x4.json", SITE + "/canon/x5.json", "urn:example:emb", "sub/",
+           SITE + "/canon/./x6.json", SITE + "/zz/../canon/x7.json"]
 
 
 def ptr_escape(seg):
@@ -240,6 +241,7 @@ def gen_universe(rng, draft="2020", max_docs=3):
                     docs[a][1].kvs.insert(0, ("$id", cid))
         if base and rng.random() < 0.5:
             docs[order[-1]][1].set("additionalProperties", Obj([("$ref", base)]))
+    canonical_backref = False
     # references between loaded documents, to marked targets (anchors / pointers / roots), incl. back to the root
     if docs and rng.random() < 0.6:
         for _ in range(rng.randint(1, 3)):
@@ -248,6 +250,11 @@ def gen_universe(rng, draft="2020", max_docs=3):
             if t.embedded or (t.doc == -1 and not root_canon):
                 continue
             ru = uris[t.doc] if t.doc >= 0 else rng.choice([u for u in t.res_uris if u])
+            if t.doc >= 0 and docs[t.doc][2] and docs[t.doc][2] != uris[t.doc] and rng.random() < 0.3:
+                # by the canonical name ($id) of the target document: only meaningful once that document has been loaded, which
+                # depends on the order of resolution — the expected verdicts are then not predicted here (real package = model decides)
+                ru = docs[t.doc][2]
+                canonical_backref = True
             frag = "#" + frag_encode(t.anchor) if t.anchor and rng.random() < 0.6 else "#" + frag_encode(t.ptr)
             cur = docs[src][1].get("properties") or Obj()
             cur.kvs.append(("q%d" % len(cur.kvs), Obj([("$ref", ru + frag)])))
@@ -302,7 +309,7 @@ def gen_universe(rng, draft="2020", max_docs=3):
     for t in expect_targets:
         if t is not None and t.doc >= 0:
             needs.add(t.doc)
-    if fail:
+    if fail or canonical_backref:
         predictable = False
     loader = True if wire_docs or rng.random() < 0.5 else False
     meta = {"dangling": dangling, "d9": d9, "fail": sorted(fail), "nrefs": len(expect_targets), "ndocs": len(docs),
